@@ -56,6 +56,13 @@ def run_units(prop, stream, seed, indices, deadline=None, keep_failures=12, want
         "failures": [], "fail_counts": Counter(), "samples": [], "unit_digests": {}, "skipped": 0,
         "first": None, "last": None,
     }
+    # engines whose runs can be influenced by process-wide state start every
+    # block from a defined state, and a failure carries the cases executed
+    # before it in the block (its "prelude"), so that it can be replayed
+    isolate = hasattr(eng, "block_start")
+    if isolate:
+        eng.block_start()
+    executed = []
     for i in indices:
         if deadline is not None and time.time() > deadline:
             agg["skipped"] += 1
@@ -67,6 +74,8 @@ def run_units(prop, stream, seed, indices, deadline=None, keep_failures=12, want
         udig = []
         for ci, case in enumerate(cases):
             res = eng.execute(case)
+            if isolate:
+                executed.append(case)
             agg["evaluations"] += 1
             st = res["stats"]
             if st.get("nontrivial"):
@@ -92,7 +101,7 @@ def run_units(prop, stream, seed, indices, deadline=None, keep_failures=12, want
                 if len(mine) < 3 and len(agg["failures"]) < keep_failures:
                     agg["failures"].append({"case": case, "oracle": res["oracle"], "known": res.get("known"),
                                             "detail": res["detail"], "unit": i, "stream": stream, "run_seed": rs,
-                                            "case_index": ci})
+                                            "case_index": ci, "prelude": list(executed[:-1]) if isolate else []})
             if len(agg["samples"]) < 2 and st.get("nontrivial"):
                 agg["samples"].append(eng.describe(case))
         if want_unit_digests:
@@ -215,7 +224,50 @@ def digests_cmd(prop, seed, n_units):
     return 0
 
 
-def write_replay(prop, failure, case, res, seed, execs, minimised):
+class Composite(object):
+    """A case together with the cases that ran before it in the same block of
+    the same worker process: {"prelude": [...], "case": {...}}."""
+
+    def __init__(self, eng):
+        self.eng = eng
+
+    def execute(self, comp):
+        eng = self.eng
+        if hasattr(eng, "block_start"):
+            eng.block_start()
+        for c in comp.get("prelude") or []:
+            try:
+                eng.execute(c)
+            except Exception:
+                pass
+        return eng.execute(comp["case"])
+
+    def shrinks(self, comp):
+        pre = comp.get("prelude") or []
+        if pre:
+            yield dict(comp, prelude=[])
+            n = len(pre)
+            size = n // 2
+            while size >= 1:
+                for i in range(0, n, size):
+                    cand = pre[:i] + pre[i + size:]
+                    if cand != pre:
+                        yield dict(comp, prelude=cand)
+                size //= 2
+        for c in self.eng.shrinks(comp["case"]):
+            yield dict(comp, case=c)
+        for k, pc in enumerate(pre):
+            for c in self.eng.shrinks(pc):
+                yield dict(comp, prelude=pre[:k] + [c] + pre[k + 1:])
+
+    def describe(self, comp):
+        d = self.eng.describe(comp["case"])
+        if comp.get("prelude"):
+            return {"prelude (ran before, same process)": [self.eng.describe(c) for c in comp["prelude"]], "case": d}
+        return d
+
+
+def write_replay(prop, failure, comp, res, seed, execs, minimised):
     os.makedirs(REPLAY_DIR, exist_ok=True)
     name = "%s-%d-%s-%s-u%d.json" % (prop, seed, failure["stream"], res["oracle"], failure["unit"])
     path = os.path.join(REPLAY_DIR, name)
@@ -223,7 +275,8 @@ def write_replay(prop, failure, case, res, seed, execs, minimised):
         json.dump({"property": prop, "oracle": res["oracle"], "known": res.get("known"), "verif_seed": seed,
                    "stream": failure["stream"], "unit": failure["unit"], "run_seed": failure["run_seed"],
                    "detail": res["detail"], "minimised": minimised, "minimiser_executions": execs,
-                   "case": case, "original_case": failure["case"] if minimised else None}, f, indent=1, sort_keys=True)
+                   "case": comp["case"], "prelude": comp.get("prelude") or [],
+                   "original_case": failure["case"] if minimised else None}, f, indent=1, sort_keys=True)
     return path
 
 
@@ -232,11 +285,12 @@ def replay_file(path, quiet=False):
         rep = json.load(f)
     prop = rep["property"]
     eng = engine_for(prop)
-    res = eng.execute(rep["case"])
+    comp = {"case": rep["case"], "prelude": rep.get("prelude") or []}
+    res = Composite(eng).execute(comp)
     if not quiet:
         print("replay %s: ok=%s oracle=%s known=%s" % (path, res["ok"], res["oracle"], res.get("known")))
         print("  detail: %s" % res["detail"])
-        print("  case: %s" % json.dumps(eng.describe(rep["case"]), sort_keys=True)[:2000])
+        print("  case: %s" % json.dumps(Composite(eng).describe(comp), sort_keys=True)[:2000])
     if res["ok"]:
         return 0, res
     if res["oracle"] == rep["oracle"]:
@@ -287,21 +341,34 @@ def check(prop, tier, workers=None, units=None, wall_cap=None, selfcheck=True):
             continue
         # a violation: minimise a small representative, write replay, confirm
         fs.sort(key=lambda f: (len(json.dumps(f["case"])), f["unit"]))
-        f = fs[0]
-        res0 = eng.execute(f["case"])
+        ceng = Composite(eng)
+        comp = res0 = None
+        for f in fs[:3]:
+            # first alone (from the defined start state), then with the cases
+            # that preceded it in its block
+            for pre in ([], f.get("prelude") or []):
+                comp = {"case": f["case"], "prelude": pre}
+                res0 = ceng.execute(comp)
+                if not res0["ok"] and res0["oracle"] == oracle:
+                    break
+                if not f.get("prelude"):
+                    break
+            if not res0["ok"] and res0["oracle"] == oracle:
+                break
         if res0["ok"] or res0["oracle"] != oracle:
             lines.append("HARNESS-ERROR: failure of unit %d (%s) did not reproduce in the parent process" % (f["unit"], oracle))
             exit_code = max(exit_code, 2)
             continue
-        mcase, mres, execs = minimise(eng, f["case"], res0)
-        path = write_replay(prop, f, mcase, mres, seed, execs, True)
+        mcomp, mres, execs = minimise(ceng, comp, res0)
+        mcase = mcomp
+        path = write_replay(prop, f, mcomp, mres, seed, execs, True)
         rc, out = confirm_in_fresh_process(path)
         if rc == 1:
             violations.append({"oracle": oracle, "known": kid, "replay": path, "count": total["fail_counts"][(oracle, kid)],
-                               "detail": mres["detail"], "case": eng.describe(mcase)})
+                               "detail": mres["detail"], "case": ceng.describe(mcase)})
             lines.append("VIOLATION property=%s replay=%s" % (prop, path))
             lines.append("  oracle=%s runs_failing=%d detail=%s" % (oracle, total["fail_counts"][(oracle, kid)], mres["detail"][:300]))
-            lines.append("  minimised case: %s" % json.dumps(eng.describe(mcase), sort_keys=True)[:1500])
+            lines.append("  minimised case: %s" % json.dumps(ceng.describe(mcase), sort_keys=True)[:1500])
         else:
             lines.append("HARNESS-ERROR: minimised replay %s did not reproduce in a fresh process (rc=%s)" % (path, rc))
             exit_code = max(exit_code, 2)
